@@ -30,14 +30,82 @@ def parse_sem_line(line):
     return {"frontier": parse_result(f["F"]), "exec": parse_result(f["X"]), "trace": tr, "pat_ok": line.endswith("ok=1")}
 
 
+def relayout(text, rng):
+    """The same tokens spread over several lines: a line break (and indentation) after some commas and opening delimiters,
+    never inside a string / char literal.  Reports must not depend on the layout; entries then sit on different lines, in an
+    order that need not be the source order (a missing map key is reported on the `#{` above the values that failed before it)."""
+    out = []
+    i, n, depth = 0, len(text), 0
+    while i < n:
+        ch = text[i]
+        if ch == '"' or (ch == "r" and text[i:i + 2] in ('r"', "r#") and (i == 0 or not (text[i - 1].isalnum() or text[i - 1] == "_"))):
+            # string literal (plain or raw): copy verbatim
+            if ch == "r":
+                j = i + 1
+                h = 0
+                while j < n and text[j] == "#":
+                    h += 1
+                    j += 1
+                if j < n and text[j] == '"':
+                    end = text.find('"' + "#" * h, j + 1)
+                    end = n if end < 0 else end + 1 + h
+                    out.append(text[i:end])
+                    i = end
+                    continue
+                out.append(ch)
+                i += 1
+                continue
+            j = i + 1
+            while j < n and text[j] != '"':
+                j += 2 if text[j] == "\\" else 1
+            out.append(text[i:j + 1])
+            i = j + 1
+            continue
+        if ch == "'":
+            # char literal or lifetime: copy up to the closing quote when it is a char literal
+            m = None
+            if i + 2 < n and text[i + 1] == "\\":
+                j = text.find("'", i + 2)
+                m = j
+            elif i + 2 < n and text[i + 2] == "'":
+                m = i + 2
+            if m is not None and m > 0:
+                out.append(text[i:m + 1])
+                i = m + 1
+                continue
+        if ch in "([{":
+            depth += 1
+            out.append(ch)
+            i += 1
+            if i < n and text[i] not in ")]}" and rng.random() < 0.35:
+                out.append("\n" + "    " * depth)
+            continue
+        if ch in ")]}":
+            depth = max(0, depth - 1)
+        if ch == ",":
+            out.append(ch)
+            i += 1
+            if rng.random() < 0.55:
+                out.append("\n" + "    " * depth)
+            continue
+        out.append(ch)
+        i += 1
+    return "".join(out)
+
+
 def run_cases(cases, tag="sem", per_program=120):
     """cases: list of dicts from semgen.gen_case.  Adds 'real' (verdict, pushes), 'model' (frontier, exec, trace)."""
     progs = []
     for b in range(0, len(cases), per_program):
         body = []
         for i, c in enumerate(cases[b:b + per_program]):
+            # every other case is written over several lines (the verdict, the entries and the rendered message may not
+            # depend on the layout)
+            lrng = random.Random((b + i) * 2654435761 % (1 << 32))
+            ptext = relayout(c["pattern"], lrng) if ((b + i) % 2 == 1 or c.get("multiline")) else c["pattern"]
+            c["program_pattern"] = ptext
             body.append("    run_case(\"%d\", || { %s let v: %s = %s; assert_struct!(v, %s); });"
-                        % (b + i, semgen.CALLER_LETS, c["type"], c["value_rust"], c["pattern"]))
+                        % (b + i, semgen.CALLER_LETS, c["type"], c["value_rust"], ptext))
         progs.append(e2e.PRELUDE + semgen.DECLS + "fn main() {\n    std::panic::set_hook(Box::new(|_| {}));\n"
                      "    let _plain = assert_struct::__macro_support::PlainOutputGuard::new();\n" + "\n".join(body) + "\n}\n")
     out = e2e.compile_many(progs, run=True, tag=tag)
